@@ -13,7 +13,7 @@ import numpy as np
 from contracts import harness as H
 from roptvc.driver import Scenario
 
-LEVEL = "proof"
+LEVEL = "other"
 MG = "ropt.ensemble_evaluator._gradient"
 MR = "ropt.ensemble_evaluator._evaluator_results"
 EXPLANATION = (
@@ -334,8 +334,8 @@ SCENARIOS = [
 ]
 
 MANIFEST = {
-    "category": "proof",
-    "text": "Deductive: completeness and labelling of every evaluator request, value-by-label, activity flags, inertness of inactive entries (relational, two runs), and the frame "
+    "category": "other",
+    "text": "Deductive (level 'other' only because one obligation is a recorded known finding, so discharged < obligations): completeness and labelling of every evaluator request, value-by-label, activity flags, inertness of inactive entries (relational, two runs), and the frame "
             "conditions (evaluator's object/arrays untouched, every result array a fresh read-only copy, enumerated mechanically over all dataclass fields of the results) are "
             "discharged by z3 on the real calculate for all real values; complete per enumerated shape. One known finding (zero-weight realizations take part in filter rankings).",
     "note": "least-squares solve by contract stub; shapes enumerated (R<=3,P<=3,N<=2,batch<=2); aliasing is decided by NumPy's own view/copy behaviour on object arrays (base-chain identity)",
